@@ -94,6 +94,19 @@ func validateBlock(state State, block *types.Block) error {
 			state.ChainID, state.LastBlockID, block.Height-1, block.LastCommit); err != nil {
 			return err
 		}
+		// VerifyCommit checks every signature against the key of the validator at the
+		// same index and never looks at CommitSig.ValidatorAddress, but MedianTime
+		// (below) weighs each timestamp by the voting power found under that address.
+		// Require the two to agree, otherwise a proposer can re-weight the timestamps.
+		for i, commitSig := range block.LastCommit.Signatures {
+			if commitSig.Absent() {
+				continue
+			}
+			if val := state.LastValidators.Validators[i]; !bytes.Equal(commitSig.ValidatorAddress, val.Address) {
+				return fmt.Errorf("wrong LastCommit signature #%d: validator address %X does not match the validator at that index (%X)",
+					i, commitSig.ValidatorAddress, val.Address)
+			}
+		}
 	}
 
 	// NOTE: We can't actually verify it's the right proposer because we don't
